@@ -21,6 +21,7 @@ type Solver struct {
 	asserted [][]*Term // assertions per level (for one-shot fallback)
 	lastOne  bool      // the last Check was answered by the one-shot fallback
 	OneShots int
+	Rebuilds int
 	levels  [][]int32  // term ids named per level
 	dlevels [][]string // var names declared per level
 	Queries int
@@ -167,6 +168,31 @@ func (s *Solver) readLine() string {
 
 var solverMode = os.Getenv("GOSYM_MODE") // "", inc, tactic, hybrid
 
+// rebuild resets the solver process state and replays the current assertion stack.
+func (s *Solver) rebuild() {
+	s.Rebuilds++
+	// a fresh process is the only state that is certainly clean
+	func() {
+		defer func() { recover() }()
+		s.in.Close()
+		s.cmd.Process.Kill()
+		s.cmd.Wait()
+	}()
+	saved := s.asserted
+	s.start()
+	for i, lvl := range saved {
+		if i > 0 {
+			s.send("(push 1)\n")
+			s.levels = append(s.levels, nil)
+			s.dlevels = append(s.dlevels, nil)
+			s.asserted = append(s.asserted, nil)
+		}
+		for _, t := range lvl {
+			s.Assert(t)
+		}
+	}
+}
+
 // Check returns "sat","unsat","unknown".
 func (s *Solver) Check() string {
 	t0 := time.Now()
@@ -199,6 +225,11 @@ func (s *Solver) Check() string {
 				s.lastOne = true
 			}
 		}
+	}
+	if r != "sat" && r != "unsat" {
+		// after a timeout / error z3 can be left mid-cancellation and drop later commands ("push
+		// canceled"): bring it back to a known state by replaying the assertion stack
+		s.rebuild()
 	}
 	d := time.Since(t0)
 	if s.log != nil {
